@@ -9,7 +9,9 @@ from vf.model.devsim import SimError, apply, expect, same_state
 PID = "C01"
 LEVEL = "exploration"
 BUDGET = {"quick": 6000, "thorough": 300000}
-VENDORS = ["huawei", "cisco", "arista", "nexus", "iosxr", "h3c", "b4com", "pc"]
+VENDORS = ["huawei", "cisco", "arista", "nexus", "iosxr", "h3c", "b4com", "pc", "aruba", "optixtrans", "juniper", "ribbon", "nokia"]
+# vendors whose formatter sends a FLAT stream (one self-contained command per line): word put in front of a line that sets something
+FLAT = {"juniper": "set", "ribbon": "set", "nokia": "/configure"}
 RULE = ("Hypothesis draws (via strategies.randoms, every choice a Hypothesis draw) a rule tree over the rule language "
         "(literals, *, trailing ~, nested blocks depth<=3, %global leaf rule, %ordered child rules, '~ %rewrite %global' blocks, "
         "logics default/undo_redo/permanent/ignore_changes), a block-structured vendor, a device tree old with <=1 row per (rule,key) "
@@ -23,14 +25,18 @@ ASSUMPTIONS = [
     "negation removes the row of that key with its subtree; entering a %rewrite-only block resets its content",
     "block rows and rows of permanent rules are fully determined by their key (as in every shipped rulebook)",
     "sibling rules have distinct first literal words (first-match ambiguity is not part of the stated domain)",
-    "RouterOS / juniper-style flattened set/delete streams are not executed here",
+    "juniper / ribbon / nokia send a flat stream ('set a b c', 'delete a b c'): the patch tree is walked by the check's own walker "
+    "(block path + command, no exits), that walk is executed on the simulator, and the flat stream the formatter emits must be that walk, "
+    "command by command, each written as <set word> + block path + line or delete + block path + removed line",
+    "RouterOS 'remove [ find ... ]' streams are not executed here",
 ]
-FLOORS = {"same-key-change": 0.2, "ordered-move": 0.04, "removal+addition": 0.5, "rewrite-reset": 0.04}
+FLOORS = {"same-key-change": 0.2, "ordered-move": 0.04, "removal+addition": 0.5, "rewrite-reset": 0.04, "flat-stream": 0.08}
 
 
 def _gen_from(rnd):
     vendor = rnd.choice(VENDORS)
-    rules = RL.gen_rules(rnd)
+    # (a flat-stream device has no 'entering a block again replaces its content': %rewrite objects exist on block-structured vendors only)
+    rules = RL.gen_rules(rnd, opts={"rewrite": False} if vendor in FLAT else None)
     ctx = RL.Ctx(rules)
     unk = 0.3 if rnd.random() < 0.4 else 0.0
     old = RL.gen_tree(rnd, ctx, unk)
@@ -104,6 +110,72 @@ def _step_labels(ctx, old, new, labels):
             _step_labels(ctx.child(cl[0], r), old[r], new[r], labels)
 
 
+def _only_removals(pt, rev):
+    return all(_only_removals(it.child, rev) if it.child else it.row.startswith(rev + " ") for it in pt.itms)
+
+
+def _walk(pt, rev, prev=(), found=None):
+    """the check's own reading of a patch tree: every childless item is a command under the block path of its ancestors.
+    Returns (path, synthetic) pairs; synthetic = not part of the stream, see the listed finding below."""
+    out = []
+    removed = set()
+    for it in pt.itms:
+        if it.child:
+            if found is not None and (rev + " " + it.row) in removed and _only_removals(it.child, rev):
+                # listed finding c01-flat-recreated-block-only-removals: the block was removed just before and is to be created again,
+                # but everything the patch holds below it is a removal - a flat stream then never mentions the block in a 'set' line
+                found.append(list(prev + (it.row,)))
+                out.append((prev + (it.row,), True))
+            out.extend(_walk(it.child, rev, prev + (it.row,), found))
+        else:
+            removed.add(it.row)
+            out.append((prev + (it.row,), False))
+    return out
+
+
+def _flat_paths(vendor, pt, ctx, rev, labels, det):
+    """flat-stream vendors: block paths from the check's own walk; the formatter's stream must spell exactly those"""
+    from vf.model import sut
+    found = []
+    walked = _walk(pt, rev, (), found)
+    if found:
+        from vf.core.runner import known_or_raise
+        labels.append(known_or_raise(PID, Violation(
+            "flat-block-never-created", "the patch removes the block %r and creates it again, but holds only removals below it: the flat "
+            "stream sends no line that creates it (a block-structured vendor gets the block's own line)" % (found[0],),
+            dict(det, recreated_block_with_only_removals=True, blocks=found))))
+    paths = [p for p, _ in walked]
+    setw = FLAT[vendor]
+    want = []
+    for p, synthetic in walked:
+        if synthetic:
+            continue
+        c = ctx
+        for blk in p[:-1]:
+            cl = c.classify(blk)
+            c = c.child(cl[0], blk) if cl else None
+            if c is None:
+                break
+        cmd = p[-1]
+        negated = cmd.startswith(rev + " ") and (c is None or c.classify(cmd) is None)
+        if negated:
+            words = [rev] + list(p[:-1]) + [cmd[len(rev) + 1:]]
+            if vendor == "nokia":
+                words = [setw] + words
+        else:
+            words = [setw] + list(p)
+        want.append((" ".join(words),))
+    got = [tuple(k) for k in sut.formatter(vendor).cmd_paths(pt).keys()]
+    if got != want:
+        det.update({"flat_stream": got, "walk_of_the_patch_tree": want})
+        i = next((i for i, (a, b) in enumerate(zip(got, want)) if a != b), min(len(got), len(want)))
+        raise Violation("flat-stream", "the flat command stream is not the patch tree spelled line by line: position %d: sent %r, the tree says %r"
+                        % (i, got[i] if i < len(got) else None, want[i] if i < len(want) else None), det)
+    if paths:
+        labels.append("flat-stream")
+    return [list(p) for p in paths]
+
+
 def check(case):
     from vf.model import sut
     vendor = case["vendor"]
@@ -118,12 +190,13 @@ def check(case):
         tgt = RL.to_odict(tgt)
         _step_labels(ctx, dev, tgt, labels)
         diff, pt = sut.diff_and_patch(vendor, dev, tgt, rb)
-        paths = sut.cmd_paths(vendor, pt)
+        det = {"step": step, "rulebook": RL.rule_text(rules)}
+        paths = _flat_paths(vendor, pt, ctx, rev, labels, det) if vendor in FLAT else sut.cmd_paths(vendor, pt)
+        det["paths"] = paths
         _paths_labels(paths, rev, exitw, labels)
-        det = {"step": step, "paths": paths, "rulebook": RL.rule_text(rules)}
         stats = {}
         try:
-            got = apply(paths, dev, ctx, rev, exitw, stats)
+            got = apply(paths, dev, ctx, rev, exitw, stats, implicit_blocks=vendor in FLAT)
         except SimError as e:
             raise Violation("exec-error", f"step {step}: {e}", det)
         if stats.get("undo-nothing"):
@@ -134,14 +207,14 @@ def check(case):
             det.update({"device_after": RL.plain(got), "expected": RL.plain(exp)})
             raise Violation("no-convergence", f"step {step}: after executing the patch the device is not the target: {why}", det)
         d2, pt2 = sut.diff_and_patch(vendor, got, tgt, rb)
-        p2 = sut.cmd_paths(vendor, pt2)
+        p2 = _flat_paths(vendor, pt2, ctx, rev, [], det) if vendor in FLAT else sut.cmd_paths(vendor, pt2)
         if strict:
             if d2 or p2:
                 det.update({"second_diff": repr(d2)[:400], "second_paths": p2})
                 raise Violation("second-run-not-empty", f"step {step}: second diff/patch after convergence is not empty: {p2 or d2!r}"[:600], det)
         elif p2:
             try:
-                got2 = apply(p2, got, ctx, rev, exitw)
+                got2 = apply(p2, got, ctx, rev, exitw, implicit_blocks=vendor in FLAT)
             except SimError as e:
                 raise Violation("exec-error", f"step {step} (second patch): {e}", det)
             if same_state(got2, got, ctx):
